@@ -55,10 +55,19 @@ def list_method(it, l, name, argv, node):
         other = argv[0]
         l.items.extend(list(other.items))
         return l
-    if name == "map":
-        return MList([it.call(argv[0], [x], node) for x in list(l.items)])
-    if name == "filter":
-        return MList([x for x in list(l.items) if it.call(argv[0], [x], node) is True])
+    if name in ("map", "filter"):
+        # the elements are visited by a LIVE index: an element the callback appends to the receiver is visited too, one it
+        # removes before its turn is not (after each call: continue while index < current length)
+        out, i = [], 0
+        while i < len(l.items):
+            x = l.items[i]
+            i += 1
+            r = it.call(argv[0], [x], node)
+            if name == "map":
+                out.append(r)
+            elif r is True:
+                out.append(x)
+        return MList(out)
     raise ValueError("no model for list." + name)
 
 
